@@ -52,6 +52,13 @@ variable (cfg : Cfg) (s : Sh) (res : List Bool) (ps : List Call)
   · simp [begin]
   · cases c <;> simp [begin]
 
+/-- … nor between the clock read and the deadline load of a retry check -/
+@[simp] theorem begin_not_tpLoad (blk : Bool) (now : Nat) :
+    (begin cfg s res ps).2.pc ≠ .tpLoad blk now := by
+  rcases ps with _ | ⟨c, r⟩
+  · simp [begin]
+  · cases c <;> simp [begin]
+
 end beginFrame
 
 /-! ## the transition history is a path -/
@@ -124,8 +131,10 @@ def TimeInv (cfg : Cfg) (s : Sh) : Prop :=
 /-- per-thread part: a TryPass parked before its CAS that loaded a stored deadline of the *current* opening
     is parked at a time when the full timeout has elapsed -/
 def ThTime (cfg : Cfg) (s : Sh) (t : Th) : Prop :=
-  ∀ blk ep fr, t.pc = .tpCas blk ep fr →
-    ep ≤ s.epoch ∧ (fr = true → ep = s.epoch → s.openedAt + cfg.timeout ≤ s.clock)
+  (∀ blk ep fr, t.pc = .tpCas blk ep fr →
+    ep ≤ s.epoch ∧ (fr = true → ep = s.epoch → s.openedAt + cfg.timeout ≤ s.clock)) ∧
+  -- a clock reading remembered by a retry check is never ahead of the clock
+  (∀ blk now, t.pc = .tpLoad blk now → now ≤ s.clock)
 
 theorem step_epoch_cases (cfg : Cfg) (i : Nat) (s : Sh) (t : Th) :
     (step cfg i s t).1.clock = s.clock ∧
@@ -146,9 +155,10 @@ theorem step_time_own (cfg : Cfg) (i : Nat) (s : Sh) (t : Th) (h : TimeInv cfg s
 
 theorem step_time_other (cfg : Cfg) (i : Nat) (s : Sh) (t u : Th) (hu : ThTime cfg s u) :
     ThTime cfg (step cfg i s t).1 u := by
-  intro blk ep fr hpc
-  obtain ⟨h1, h2⟩ := hu blk ep fr hpc
   obtain ⟨hc, he⟩ := step_epoch_cases cfg i s t
+  refine ⟨?_, fun blk now hpc => by rw [hc]; exact hu.2 blk now hpc⟩
+  intro blk ep fr hpc
+  obtain ⟨h1, h2⟩ := hu.1 blk ep fr hpc
   rcases he with ⟨he, ho⟩ | he
   · rw [he, ho, hc]; exact ⟨h1, h2⟩
   · rw [he]; exact ⟨by omega, fun _ h => by omega⟩
@@ -157,6 +167,7 @@ theorem step_time_other (cfg : Cfg) (i : Nat) (s : Sh) (t u : Th) (hu : ThTime c
 
 @[simp] theorem owes_tpGet (b : Bool): (Pc.tpGet b).owes = none := rfl
 @[simp] theorem owes_tpRetry (b : Bool): (Pc.tpRetry b).owes = none := rfl
+@[simp] theorem owes_tpLoad (b : Bool) (n : Nat): (Pc.tpLoad b n).owes = none := rfl
 @[simp] theorem owes_tpCas (b : Bool) (e : Nat) (f : Bool): (Pc.tpCas b e f).owes = none := rfl
 @[simp] theorem owes_rbCas : (Pc.rbCas ).owes = none := rfl
 @[simp] theorem owes_ocGet (b : Bool) (x y : Nat): (Pc.ocGet b x y).owes = none := rfl
@@ -287,8 +298,8 @@ theorem inv_spawn (cfg : Cfg) {c : Conf} (p : List Call) (h : Inv cfg c) :
     · subst heq
       simp at hi
       subst hi
-      intro blk ep fr hpc
-      exact absurd hpc (begin_not_tpCas cfg c.sh [] p blk ep fr)
+      exact ⟨fun blk ep fr hpc => absurd hpc (begin_not_tpCas cfg c.sh [] p blk ep fr),
+             fun blk now hpc => absurd hpc (begin_not_tpLoad cfg c.sh [] p blk now)⟩
     · rw [List.getElem?_eq_none (by simp; omega)] at hi
       cases hi
   · intro k
@@ -314,8 +325,10 @@ theorem inv_tick (cfg : Cfg) {c : Conf} (ms : Nat) (h : Inv cfg c) : Inv cfg (c.
   constructor
   · exact h.path
   · exact ⟨by simp [Conf.tick]; omega, h2, h3⟩
-  · intro i t hi blk ep fr hpc
-    obtain ⟨a, b⟩ := h.thTime i t hi blk ep fr hpc
+  · intro i t hi
+    refine ⟨?_, fun blk now hpc => by have := (h.thTime i t hi).2 blk now hpc; simp [Conf.tick]; omega⟩
+    intro blk ep fr hpc
+    obtain ⟨a, b⟩ := (h.thTime i t hi).1 blk ep fr hpc
     exact ⟨a, fun x y => by have := b x y; simp [Conf.tick]; omega⟩
   · exact h.notify
   · exact h.probe
